@@ -9,6 +9,7 @@ import (
 	"fmt"
 	"io/ioutil"
 	"path/filepath"
+	"sort"
 	"strings"
 	"time"
 
@@ -468,6 +469,105 @@ func c05Case(t *core.T, steps int, defaultScrypt bool) {
 				continue
 			}
 			afterSigning(x, fmt.Sprintf("SignRawTx (%s, result %v)", kind, serr))
+			if kind == "all inputs known" && !t.Failed() {
+				// the same signing call again, parked in front of one of its own database reads (before,
+				// between and after the signatures: the keystore is unlocked from the first signature to
+				// the end of the call); while it is parked every wrong passphrase must still be refused by
+				// the calls a concurrent client can make, and nothing may be written
+				gate := &c17Gate{}
+				w.DB.SetHook(gate.hook)
+				sign := func() error {
+					raw, err := tx.Bytes(wire.Packet)
+					if err != nil {
+						return err
+					}
+					cp := wire.NewMsgTx()
+					if err := cp.SetBytes(raw, wire.Packet); err != nil {
+						return err
+					}
+					stripWitness(cp)
+					_, err = w.W.SignRawTx([]byte(x.pass), "ALL", cp)
+					return err
+				}
+				gate.arm(1 << 30)
+				derr := sign()
+				nReads, _ := gate.disarm()
+				if derr == nil && nReads > 0 {
+					picks := map[int]bool{1: true, nReads: true}
+					for len(picks) < 4 && len(picks) < nReads {
+						picks[1+t.R.Intn(nReads)] = true
+					}
+					var js []int
+					for j := range picks {
+						js = append(js, j)
+					}
+					sort.Ints(js)
+					for _, j := range js {
+						if t.Failed() || x.removed {
+							break
+						}
+						gate.arm(j)
+						done := make(chan error, 1)
+						go func() { done <- sign() }()
+						parked := false
+						select {
+						case <-gate.held:
+							parked = true
+						case err := <-done:
+							gate.disarm()
+							if err != nil {
+								fail("right-passphrase-refused:signrawtx", err.Error())
+							}
+						}
+						if !parked {
+							continue
+						}
+						blocked := false
+						attempt := func(name string, f func(p string) error) {
+							if blocked || t.Failed() {
+								return
+							}
+							fin := make(chan struct{})
+							go func() {
+								defer close(fin)
+								refused(name, f, x)
+							}()
+							select {
+							case <-fin:
+								t.Count("refused_attempts_while_a_signing_call_is_parked", 1)
+							case <-time.After(3 * time.Second):
+								// the attempt waits for a lock the parked call holds: protected; let both finish
+								blocked = true
+								t.Count("attempts_blocked_by_the_parked_signing_call", 1)
+								close(gate.release)
+								<-fin
+							}
+						}
+						attempt("ExportWallet", func(p string) error { _, err := w.W.ExportWallet(x.id, p); return err })
+						attempt("GetMnemonic", func(p string) error { _, _, err := w.W.GetMnemonic(x.id, p); return err })
+						attempt("RemoveWallet", func(p string) error {
+							err := w.W.RemoveWallet(x.id, p)
+							if err == nil {
+								x.removed = true
+							}
+							return err
+						})
+						if !blocked {
+							close(gate.release)
+						}
+						if err := <-done; err != nil && !x.removed {
+							fail("right-passphrase-refused:signrawtx", fmt.Sprintf("the parked signing call fails after concurrent refused attempts: %v", err))
+						}
+						gate.disarm()
+						logf("SignRawTx(%s) parked at database read %d of %d while wrong passphrases are tried", x.id[:8], j, nReads)
+						t.Count("signing_calls_parked", 1)
+					}
+				}
+				w.DB.SetHook(nil)
+				if !t.Failed() && !x.removed {
+					afterSigning(x, "a signing call overlapped by refused attempts")
+				}
+			}
 		case 8: // remove with the right passphrase (then the wallet is gone)
 			if len(wallets) < 2 {
 				continue
